@@ -13,9 +13,18 @@ from . import pyside
 from .pyside import canon, decode, encode, project
 
 
+def _is_union(ann):
+    import typing
+    if getattr(ann, "__origin__", None) is typing.Union:
+        return len([a for a in ann.__args__ if a is not type(None)]) > 1
+    return False
+
+
 def exc_info(e):
-    """(exception class name, type-level position of the innermost failing attribute, text)."""
+    """(exception class name, type-level position of the innermost failing attribute, text,
+    whether that attribute is annotated with a union)."""
     pos = ""
+    atunion = False
     leaf = e
     try:
         from cattrs.errors import ClassValidationError, IterableValidationError
@@ -29,18 +38,25 @@ def exc_info(e):
                         note = n
                 if note is not None:
                     pos = "%s.%s" % (getattr(cur.cl, "__name__", "?"), note.name)
+                    atunion = _is_union(getattr(note, "type", None))
                 cur = sub
                 leaf = sub
                 continue
             if isinstance(cur, IterableValidationError) and cur.exceptions:
-                cur = cur.exceptions[0]
+                sub = cur.exceptions[0]
+                for n in getattr(sub, "__notes__", []):
+                    if hasattr(n, "type"):
+                        atunion = _is_union(n.type)
+                cur = sub
                 leaf = cur
                 continue
             break
     except Exception:
         pass
     text = ("%s" % (leaf,)).replace("\n", " ")[:160]
-    return type(leaf).__name__, pos, text
+    if type(leaf).__name__ == "StructureHandlerNotFoundError" or "disambiguat" in text:
+        atunion = True
+    return type(leaf).__name__, pos, text, atunion
 
 
 class Runner:
@@ -57,13 +73,13 @@ class Runner:
         except BaseException as e:                 # noqa: BLE001 - every outcome is an observation
             if isinstance(e, (KeyboardInterrupt, SystemExit, MemoryError)):
                 raise
-            name, pos, text = exc_info(e)
-            ev.update(ok=False, exc=name, pos=pos, msg=text, p={"k": "none"})
+            name, pos, text, atunion = exc_info(e)
+            ev.update(ok=False, exc=name, pos=pos, msg=text, atunion=atunion, p={"k": "none"})
             return ev, None
         p = project(obj)
         if root["kind"] == "alias":
             p = p["p"]["value"] if p.get("k") == "inst" and "value" in p.get("p", {}) else {"k": "opaque", "s": "holder"}
-        ev.update(ok=True, exc="", pos="", msg="", p=p)
+        ev.update(ok=True, exc="", pos="", msg="", atunion=False, p=p)
         return ev, obj
 
     def ev_unstructure(self, obj, cls, root):
@@ -74,7 +90,7 @@ class Runner:
         except BaseException as e:                 # noqa: BLE001
             if isinstance(e, (KeyboardInterrupt, SystemExit, MemoryError)):
                 raise
-            name, pos, text = exc_info(e)
+            name, pos, text, _ = exc_info(e)
             ev.update(ok=False, exc=name, pos=pos, msg=text, w={"k": "null"})
             return ev, None
         raw = w
@@ -96,7 +112,7 @@ class Runner:
         except BaseException as e:                 # noqa: BLE001
             if isinstance(e, (KeyboardInterrupt, SystemExit, MemoryError)):
                 raise
-            name, pos, text = exc_info(e)
+            name, pos, text, _ = exc_info(e)
             ev.update(ok=False, exc=name, pos=pos, msg=text)
             return ev, None
         ev.update(ok=True, exc="", pos="", msg="")
